@@ -111,6 +111,9 @@ def ev_atom(a, env, k):
         return ev(from_key(a[2] if c else a[3]), env, k)
     if t == 'sum':
         return sum(ev(from_key(a[2]), env, i) for i in range(env.npos))
+    if t == 'reduce':
+        vals = [ev(from_key(a[3]), env, i) for i in range(env.npos)]
+        return max(vals) if a[1] == 'max' else min(vals)
     if t == 'int':
         return float(env.leaf(a, None) // 1)
     if t in ('opq', 'proj', 'pos', 'acc', 'phi'):
